@@ -20,6 +20,43 @@ pub fn pix_line(input: &[u8], o: Opts, ops: &[Op], fw: Option<u32>, fh: Option<u
         hex(input), opt(o.ecl), opt(o.mode), opt(o.version), opt(o.mask), svgops::toks(ops),
         fw.map_or("-".to_string(), |x| x.to_string()), fh.map_or("-".to_string(), |x| x.to_string())
     );
+    let mut fits = Vec::new();
+    if let Some(w) = fw {
+        fits.push((true, w));
+    }
+    if let Some(h) = fh {
+        fits.push((false, h));
+    }
+    pix_core(head, input, o, ops, fits)
+}
+
+/// `pixh <hex> e m v k <ops> <w116;h232;w348|-> => …` : the same with a HISTORY of fit_width / fit_height calls on one builder
+pub fn pixh_line(input: &[u8], o: Opts, ops: &[Op], fits: &[(bool, u32)]) -> String {
+    let hist = if fits.is_empty() {
+        "-".to_string()
+    } else {
+        fits.iter().map(|(w, x)| format!("{}{}", if *w { 'w' } else { 'h' }, x)).collect::<Vec<_>>().join(";")
+    };
+    let head = format!(
+        "pixh {} {} {} {} {} {} {} => ",
+        hex(input), opt(o.ecl), opt(o.mode), opt(o.version), opt(o.mask), svgops::toks(ops), hist
+    );
+    pix_core(head, input, o, ops, fits.to_vec())
+}
+
+pub fn parse_fits(s: &str) -> Option<Vec<(bool, u32)>> {
+    if s == "-" {
+        return Some(vec![]);
+    }
+    s.split(';')
+        .map(|t| {
+            let (k, x) = t.split_at(1);
+            Some((match k { "w" => true, "h" => false, _ => return None }, x.parse().ok()?))
+        })
+        .collect()
+}
+
+fn pix_core(head: String, input: &[u8], o: Opts, ops: &[Op], fits: Vec<(bool, u32)>) -> String {
     let r = build(input, o);
     let q = match &r {
         Outcome::Ok(q) => q.clone(),
@@ -41,11 +78,12 @@ pub fn pix_line(input: &[u8], o: Opts, ops: &[Op], fw: Option<u32>, fh: Option<u
     let res = std::panic::catch_unwind(move || {
         let mut b = ImageBuilder::default();
         svgops::apply(&mut b, &ops2);
-        if let Some(w) = fw {
-            b.fit_width(w);
-        }
-        if let Some(h) = fh {
-            b.fit_height(h);
+        for (is_w, x) in fits {
+            if is_w {
+                b.fit_width(x);
+            } else {
+                b.fit_height(x);
+            }
         }
         let pm = b.to_pixmap(&q2);
         let bytes = b.to_bytes(&q2).ok();
@@ -186,6 +224,20 @@ pub fn gen(out: &mut crate::gen::Out, rng: &mut Rng, thorough: bool) {
                 }
             }
         }
+    }
+    // histories of fit setters on one builder (last value of each kind wins; both kinds stay in force)
+    for k in 0..(if thorough { 300 } else { 30 }) {
+        let v = rng.below(if thorough { 12 } else { 4 });
+        let n = 21 + 4 * v;
+        let margin = *rng.pick(&[0usize, 1, 4]);
+        let cells = (n + 2 * margin) as u32;
+        let mut fits = Vec::new();
+        for _ in 0..(2 + rng.below(4)) {
+            fits.push((rng.chance(1, 2), cells * (1 + rng.below(8) as u32) + if rng.chance(1, 4) { rng.below(cells as usize) as u32 } else { 0 }));
+        }
+        let (inp, o) = crate::gen::small_symbol(rng, &caps, v);
+        let ops = vec![Op::Margin(margin), Op::Shape(if k % 3 == 0 { rng.below(6) } else { 0 })];
+        out.job(move || pixh_line(&inp, o, &ops, &fits));
     }
 }
 
